@@ -2,14 +2,14 @@
 import fwd, grad, comp, total, rnd, sizes
 
 REGISTRY = {
-    'C01': {'gen': grad.gen_C01, 'cmd_timeout_ms': 8000},
+    'C01': {'gen': grad.gen_C01, 'cmd_timeout_ms': 8000, 'once': grad.deep_shared},
     'C02': {'gen': grad.gen_C02, 'once': lambda tier: grad.exhaustive_backward(tier) + sizes.sweep_C02(tier)},
     'C03': {'gen': fwd.gen_C03, 'once': sizes.sweep_C03},
     'C04': {'gen': fwd.gen_C04, 'once': sizes.sweep_C04},
     'C05': {'gen': fwd.gen_C05, 'once': sizes.sweep_C05},
     'C06': {'gen': fwd.gen_C06, 'once': sizes.sweep_C06},
     'C07': {'gen': grad.gen_C07, 'once': sizes.sweep_C07},
-    'C08': {'gen': grad.gen_C08, 'once': grad.exhaustive_flag_states},
+    'C08': {'gen': grad.gen_C08, 'cmd_timeout_ms': 8000, 'once': lambda tier: grad.exhaustive_flag_states(tier) + grad.deep_shared(tier)},
     'C09': {'gen': total.gen_C09, 'once': lambda tier: total.exhaustive_small_scope('quick' if tier == 'quick' else 'thorough') + grad.exhaustive_backward(tier) + sizes.sweep_C04(tier)},
     'C10': {'gen': total.gen_C10},
     'C11': {'gen': comp.gen_C11, 'once': sizes.sweep_C11},
